@@ -218,7 +218,15 @@ func main() {
 				panic(r)
 			}
 		}()
+		if env.Replay != nil && replayConcExtra(env, rep, *prop) {
+			return
+		}
 		f(env, rep)
+		if env.Replay == nil {
+			if n := runConcExtras(env, rep, *prop); n > 0 {
+				rep.add("shared_concurrency_scenarios_executions", int64(n))
+			}
+		}
 	}()
 	rep.WallS = time.Since(t0).Seconds()
 	b, _ := json.MarshalIndent(rep, "", " ")
